@@ -147,10 +147,10 @@ func main() {
 			if t == "quick" {
 				return 5 * time.Minute
 			}
-			return 40 * time.Minute
+			return 60 * time.Minute
 		},
-		MinEvals:    200000,
-		MinDistinct: 10000,
+		MinEvals:    600000,
+		MinDistinct: 20000,
 		Require: []string{
 			"ref_hash_crosschecked", "guard_page_control_faults", "guard_page_calls", "avx2_blocks_checked", "generic_blocks_checked",
 			"api_root_batches_on_avx2_path", "api_root_batches_on_generic_path", "proof_batches_on_generic_path",
